@@ -141,14 +141,12 @@ SortPerm(kind, rev, vs) ==
 Permute(s, p) == [i \in 1..Len(p) |-> s[p[i]]]
 
 \* ---- (c) the documented shape of a reformatted field -----------------------------
+Concat(seqs) == FoldLeft(LAMBDA a, b : a \o b, <<>>, seqs)      \* (iterative: lists of 1000 values are validated)
 Shape(mode, its) ==
-   LET F[i \in 0..Len(its)] ==
-          IF i = 0 THEN <<>>
-          ELSE F[i - 1]
-               \o (IF its[i].c # <<>> THEN (IF i = 1 THEN <<NL>> ELSE <<>>) \o its[i].c ELSE <<>>)
-               \o (IF i = 1 /\ its[i].c = <<>> THEN <<SP>> ELSE <<CT, SP>>)
-               \o its[i].f \o (IF mode = "sp" THEN <<>> ELSE <<SEP>>) \o <<NL>>
-   IN F[Len(its)]
+   Concat([i \in 1..Len(its) |->
+             (IF its[i].c # <<>> THEN (IF i = 1 THEN <<NL>> ELSE <<>>) \o its[i].c ELSE <<>>)
+             \o (IF i = 1 /\ its[i].c = <<>> THEN <<SP>> ELSE <<CT, SP>>)
+             \o its[i].f \o (IF mode = "sp" THEN <<>> ELSE <<SEP>>) \o <<NL>>])
 \* a written field has the documented shape iff reformatting what it holds gives it back
 HasShape(mode, lay) == Squeeze(lay) = Shape(mode, ItemsOf(mode, lay))
 
